@@ -17,6 +17,8 @@ CONSTANTS MCDefectSets,             \* the deviation sets explored side by side:
           MCMethods,                \* indices into MethodTable
           MCHistSizes, MCHistMethods,   \* sizes / methods used with histories of two attempts
           MCHist3Sizes,             \* sizes used with histories of three attempts
+          MCShortSizes,             \* sizes used with short-reading streams
+          MCShortTextMaxHist,       \* longest history used with the TEXT short-reading streams
           MCBS,                     \* blocksize
           ShardK, ShardS,           \* emission sharding
           EmitOn
@@ -39,6 +41,8 @@ Admissible(r) ==
     /\ (r.kind = "none" => r.n = 0)
     /\ (r.start = 1 => r.kind \in FileLike)
     /\ (r.caller # "none" => r.hist = <<"ok">> /\ r.client = "pool" /\ r.start = 0)
+    /\ (r.kind \in ShortReaders => r.n \in MCShortSizes)
+    /\ (r.kind \in {"shorttextfile", "shorttextpipe"} => Len(r.hist) <= MCShortTextMaxHist)
     /\ (r.caller = "cl" => ~r.chunked)        \* a caller that asks for chunking AND supplies Content-Length contradicts itself
     /\ (Len(r.hist) = 2 => r.m \in MCHistMethods /\ (r.kind = "none" \/ r.n \in MCHistSizes))
     /\ (Len(r.hist) = 3 => r.m \in MCHistMethods /\ ~r.chunked /\ (r.kind = "none" \/ r.n \in MCHist3Sizes))
@@ -53,6 +57,7 @@ ShardOf(r) == (r.n + r.m + Len(r.hist) + (IF r.chunked THEN 1 ELSE 0) + (IF r.cl
 \* seekable bodies behind a PoolManager (everywhere else the run IS the design run)
 Relevant(d, r) == /\ ("D3" \in d => r.kind \in OneShot)
                   /\ (Z0 \in d => r.client = "mgr" /\ r.kind \in HasTell /\ r.caller = "none")
+                  /\ (SR \in d => r.kind \in ShortReaders /\ r.caller = "none")
 Init == \E r \in Raw, d \in MCDefectSets :
             /\ Admissible(r) /\ Relevant(d, r) /\ ShardOf(r) = ShardS
             /\ sc = ScOf(r) /\ st = InitState(sc) /\ dv = d
@@ -101,12 +106,15 @@ V == Verdict(sc, st.atts)
 RulesHold == dv = {} => V.clause = "ok"
 \* with the recorded deviations enabled: only BodyIdentical may fail, and only inside the recorded classes
 RulesHoldExceptKnown ==
-    V.clause # "ok" => /\ V.clause = "BodyIdentical"
-                       /\ \/ "D3" \in D /\ InClassD3(sc, V.at)
-                          \/ Z0 \in D /\ InClassZ0(sc, V.at)
+    V.clause # "ok" =>
+        \/ "D3" \in D /\ V.clause = "BodyIdentical" /\ InClassD3(sc, V.at)
+        \/ Z0 \in D /\ V.clause = "BodyIdentical" /\ InClassZ0(sc, V.at)
+        \* a truncated body fails against the body's bytes on the first complete attempt (PayloadEqualsBody when that is attempt 1)
+        \/ SR \in D /\ V.clause \in {"PayloadEqualsBody", "BodyIdentical"} /\ InClassSR(sc)
+           /\ (V.clause = "BodyIdentical" => ~st.atts[1].complete)
 \* the position handed to a redirected request is the one recorded before the FIRST attempt (0 is a position)
 ManagerKeepsFirstPosition == D \cap {Z0} = {} =>
-    (sc.client = "mgr" /\ st.kwPos # PosNone /\ sc.kind \in {"file", "textfile", "badseek"} => st.kwPos = PosAt(sc.start))
+    (sc.client = "mgr" /\ st.kwPos # PosNone /\ sc.kind \in (Rewindable \cup {"badseek"}) => st.kwPos = PosAt(sc.start))
 \* the framing decision table, clause by clause, on every attempt made so far (caller supplies no framing header)
 FramingTable ==
     sc.caller = "none" => \A j \in 1..Len(st.atts) :
@@ -128,7 +136,7 @@ RefusedOnlyWhenUnreplayable ==
 \* the design never sends a one-shot body twice; a replayable body is always sent again
 DesignResends == D = {} =>
     /\ (sc.kind \in OneShot => Cardinality({j \in 1..Len(st.atts) : CarriesBody(sc, j)}) <= 1)
-    /\ (st.pc = "done" /\ sc.kind \in (Replayable \cup {"file", "textfile", "none"}) => st.outcome = "resp" /\ Len(st.atts) = Len(sc.hist))
+    /\ (st.pc = "done" /\ sc.kind \in (Replayable \cup Rewindable \cup {"none"}) => st.outcome = "resp" /\ Len(st.atts) = Len(sc.hist))
 \* the pure run operator used by the trace monitor is the state machine
 PredictIsTheMachine == st.pc = "done" => Predict(D, sc) = st
 
@@ -137,6 +145,6 @@ Terminates == <>(st.pc = "done")
 -----------------------------------------------------------------------------
 (* Emission (stage 2): one line per terminal state                               *)
 EmitInv == (EmitOn /\ st.pc = "done") =>
-    PrintT(<<"SC", ToJson([sc |-> sc, dv |-> IF dv = {} THEN "design" ELSE IF dv = {"D3"} THEN "D3" ELSE IF dv = {Z0} THEN Z0 ELSE "other", outcome |-> st.outcome, verdict |-> V,
+    PrintT(<<"SC", ToJson([sc |-> sc, dv |-> IF dv = {} THEN "design" ELSE IF dv = {"D3"} THEN "D3" ELSE IF dv = {Z0} THEN Z0 ELSE IF dv = {SR} THEN SR ELSE "other", outcome |-> st.outcome, verdict |-> V,
                            trail |-> st.trail, atts |-> [j \in 1..Len(st.atts) |-> Proj(st.atts[j])]])>>)
 =============================================================================
